@@ -3,6 +3,7 @@ C03 — the geometric progression: count specification (uniqueness, never coarse
 fewer), the executable exact count, first/last cell, inversion.
 -/
 import CBV.Lemmas.C03
+import Mathlib.Algebra.Order.Ring.Pow
 
 namespace CBV.C03
 
@@ -164,6 +165,92 @@ theorem searchFrom_complete {s r L : ℚ} (hs : 0 < s) (hr : 0 < r) {n : ℕ} (h
 theorem searchCount_complete {s r L : ℚ} {fuel n : ℕ} (hs : 0 < s) (hr : 0 < r) (hn : CountSpec s r L n)
     (hf : n ≤ fuel) : searchCount s r L fuel = some n :=
   searchFrom_complete hs hr hn fuel 0 0 1 (by simp [geomSum]) (by simp) (by have := hn.1; omega) (by omega)
+
+/-! ### `searchCount` is total: the fuel of `searchFuel` suffices -/
+
+theorem searchFrom_total {s r L : ℚ} :
+    ∀ (fuel k : ℕ) (acc pw : ℚ), acc = s * geomSum r k → pw = r ^ k → acc ≤ L →
+      L < s * geomSum r (k + fuel) → ∃ n, searchFrom s r L fuel k acc pw = some n := by
+  intro fuel
+  induction fuel with
+  | zero => intro k acc pw hacc _ hle hlt; rw [Nat.add_zero, ← hacc] at hlt; linarith
+  | succ f ih =>
+    intro k acc pw hacc hpw hle hlt
+    simp only [searchFrom]
+    have hnext : acc + s * pw = s * geomSum r (k + 1) := by rw [hacc, hpw]; simp only [geomSum]; ring
+    split_ifs with h
+    · exact ⟨_, rfl⟩
+    · exact ih (k + 1) _ _ hnext (by rw [hpw, pow_succ]) (not_lt.mp h) (by rwa [show k + 1 + f = k + (f + 1) by omega])
+
+theorem geomSum_ge_n {r : ℚ} (h1 : 1 ≤ r) (n : ℕ) : (n : ℚ) ≤ geomSum r n := by
+  induction n with
+  | zero => simp [geomSum]
+  | succ n ih => simp only [geomSum]; have := one_le_pow₀ h1 (n := n); push_cast; linarith
+
+theorem natCast_floor_toNat_succ_gt {q : ℚ} (hq : 0 ≤ q) : q < ((q.floor.toNat + 1 : ℕ) : ℚ) := by
+  have h0 : 0 ≤ q.floor := Rat.le_floor_iff.mpr (by simpa using hq)
+  have h1 := Rat.lt_floor_add_one q
+  have h2 : ((q.floor.toNat : ℕ) : ℤ) = q.floor := Int.toNat_of_nonneg h0
+  have h3 : ((q.floor.toNat + 1 : ℕ) : ℚ) = ((q.floor + 1 : ℤ) : ℚ) := by
+    calc ((q.floor.toNat + 1 : ℕ) : ℚ) = (((q.floor.toNat : ℕ) : ℤ) : ℚ) + 1 := by push_cast; ring
+      _ = (q.floor : ℚ) + 1 := by rw [h2]
+      _ = ((q.floor + 1 : ℤ) : ℚ) := by push_cast; ring
+  rw [h3]; exact h1
+
+/-- the fuel computed by `searchFuel` always suffices -/
+theorem searchFuel_enough {s r L : ℚ} (hs : 0 < s) (hr : 0 < r) (hL : 0 ≤ L)
+    (ha : r < 1 → 0 < 1 - L * (1 - r) / s) : L < s * geomSum r (searchFuel s r L) := by
+  unfold searchFuel
+  by_cases h1 : 1 ≤ r
+  · rw [if_pos h1]
+    -- r ≥ 1: at least `n` cells of size `s`
+    have hq : 0 ≤ L / s := div_nonneg hL (le_of_lt hs)
+    have hN := natCast_floor_toNat_succ_gt hq
+    have hg := geomSum_ge_n h1 ((L / s).floor.toNat + 1)
+    have : L / s < geomSum r ((L / s).floor.toNat + 1) := lt_of_lt_of_le hN hg
+    rw [div_lt_iff₀ hs] at this
+    linarith
+  · rw [if_neg h1]
+    simp only []
+    have hr1 : r < 1 := not_le.mp h1
+    have h2 : ¬(1 - L * (1 - r) / s ≤ 0) := not_le.mpr (ha hr1)
+    rw [if_neg h2]
+    -- r < 1: Bernoulli on 1/r
+    set a := 1 - L * (1 - r) / s with ha_def
+    have hapos : 0 < a := not_le.mp h2
+    have hale : a ≤ 1 := by
+      have : 0 ≤ L * (1 - r) / s := div_nonneg (mul_nonneg hL (by linarith)) (le_of_lt hs)
+      linarith
+    have hd : 0 < 1 / r - 1 := by
+      have : 1 < 1 / r := by rw [lt_div_iff₀ hr]; linarith
+      linarith
+    have hq : 0 ≤ (1 / a - 1) / (1 / r - 1) := by
+      apply div_nonneg _ (le_of_lt hd)
+      have : 1 ≤ 1 / a := by rw [le_div_iff₀ hapos]; linarith
+      linarith
+    set N := ((1 / a - 1) / (1 / r - 1)).floor.toNat + 1 with hN_def
+    have hN : (1 / a - 1) / (1 / r - 1) < (N : ℚ) := natCast_floor_toNat_succ_gt hq
+    rw [div_lt_iff₀ hd] at hN
+    have hb := one_add_mul_le_pow (a := 1 / r - 1) (by linarith) N
+    have hpow : 1 / a < (1 / r) ^ N := by
+      have : (1 : ℚ) + (1 / r - 1) = 1 / r := by ring
+      rw [this] at hb
+      linarith
+    -- r^N < a
+    have hrN : r ^ N < a := by
+      have hrNpos : 0 < r ^ N := pow_pos hr N
+      rw [one_div, one_div, inv_pow] at hpow
+      have := inv_lt_inv₀ (a := a) (b := r ^ N) hapos hrNpos
+      exact this.mp hpow
+    -- hence the n-th partial sum exceeds L
+    have hc := geomSum_closed r N
+    have h1r : 0 < 1 - r := by linarith
+    have hg : geomSum r N = (1 - r ^ N) / (1 - r) := by field_simp; linarith
+    rw [hg]
+    have hlt : L * (1 - r) / s < 1 - r ^ N := by rw [ha_def] at hrN; linarith
+    rw [div_lt_iff₀ hs] at hlt
+    rw [mul_div_assoc', lt_div_iff₀ h1r]
+    linarith
 
 /-! ### reversal of the progression -/
 
